@@ -279,16 +279,36 @@ Section Flock.
         - exact I8. }
       destruct (probe s) eqn:Epr.
       + apply HG3; try reflexivity. exact (l_path _ I).
-      + apply HG3; try reflexivity.
-        intros w k Hw Hb. exfalso.
-        assert (A : alive (w_ph k) = false).
+      + assert (NA : forall w k, getw s w = Some k -> alive (w_ph k) = false).
         { eapply no_alive; eauto; rewrite Epc; [reflexivity | discriminate]. }
-        destruct (w_ph k); discriminate.
+        assert (CU : forall j q, getp s j = Some q -> crit (p_pc q) = true -> i = j).
+        { intros j q Hj Hc. eapply crit_unique; eauto. rewrite Epc; reflexivity. }
+        destruct I as [I1 I2 I3 I4 I5 I6 I7 I8]. constructor; unfold getp, getw in *; cbn.
+        * intros j q H Hc. upd H; [discriminate|]. exfalso. apply N. eapply CU; eauto.
+        * intros w k Hw Hs. pose proof (NA w k Hw) as A. unfold alive in A. rewrite Hs in A. discriminate.
+        * intros w k Hw Hb. pose proof (NA w k Hw) as A. destruct (w_ph k); discriminate.
+        * intros j q w H Hq Hw. upd H; [discriminate|]. eapply I4; eauto.
+        * intros j q H Hq. upd H; [destruct Hq; discriminate|]. eapply I5; eauto.
+        * exact I6.
+        * exact I7.
+        * exact I8.
     - (* G3 *)
       assert (CU : forall j q, getp s j = Some q -> crit (p_pc q) = true -> i = j).
       { intros j q Hj Hc. eapply crit_unique; eauto. rewrite Epc; reflexivity. }
       destruct I as [I1 I2 I3 I4 I5 I6 I7 I8]. constructor; unfold getp, getw in *; cbn.
       + intros j q H Hc. upd H; [discriminate|]. exfalso. apply N. eapply CU; eauto.
+      + intros w k Hw Hs. destruct (I2 w k Hw Hs) as (j & q & Hj & Hq & Hqw).
+        exists j, q. split; [|split; assumption]. rewrite nth_error_upd_nth, Hj.
+        destruct (Nat.eqb_spec i j); [subst j; rewrite Ei in Hj; inversion Hj; subst; congruence | reflexivity].
+      + exact I3.
+      + intros j q w H Hq Hw. upd H; [discriminate|]. eapply I4; eauto.
+      + intros j q H Hq. upd H; [destruct Hq; discriminate|]. eapply I5; eauto.
+      + exact I6.
+      + exact I7.
+      + exact I8.
+    - (* G3u *)
+      destruct I as [I1 I2 I3 I4 I5 I6 I7 I8]. constructor; unfold getp, getw in *; cbn.
+      + intros j q H Hc. upd H; [discriminate|]. eauto.
       + intros w k Hw Hs. destruct (I2 w k Hw Hs) as (j & q & Hj & Hq & Hqw).
         exists j, q. split; [|split; assumption]. rewrite nth_error_upd_nth, Hj.
         destruct (Nat.eqb_spec i j); [subst j; rewrite Ei in Hj; inversion Hj; subst; congruence | reflexivity].
